@@ -96,8 +96,9 @@ class SocketWrapper:
 
     def readline(self) -> bytes:
         """
-        Read bytes from buffer until CRLF reached.
-        NB: always check that return data terminator is CRLF.
+        Read bytes from buffer until LF reached, like readline()
+        on a file or serial stream.
+        NB: always check that return data terminator is LF.
 
         :returns: bytes
         :rtype: bytes
@@ -108,7 +109,7 @@ class SocketWrapper:
             data = self.read(1)
             if len(data) == 1:
                 line += data
-                if line[-2:] == b"\r\n":
+                if line[-1:] == b"\n":
                     break
             else:
                 break
